@@ -6,7 +6,8 @@ property with the patch applied. The outcome is stored in meta.json / result.jso
 usage: reverify_seeds.py [names...]        (default: every directory under seeded/ and mutants/)"""
 import glob, json, os, re, subprocess, sys
 names = sys.argv[1:]
-commit = subprocess.run(["git", "-C", "/repo", "rev-parse", "--short", "HEAD"], capture_output=True, text=True).stdout.strip()
+REPO = os.environ.get("TRY_REPO", "/repo")
+commit = subprocess.run(["git", "-C", REPO, "rev-parse", "--short", "HEAD"], capture_output=True, text=True).stdout.strip()
 bad = []
 for d in sorted(glob.glob("/verif/seeded/*")) + sorted(glob.glob("/verif/mutants/*")):
     name = os.path.basename(d)
@@ -15,7 +16,7 @@ for d in sorted(glob.glob("/verif/seeded/*")) + sorted(glob.glob("/verif/mutants
     metaf = os.path.join(d, "meta.json")
     meta = json.load(open(metaf))
     prop = meta["property"]
-    if subprocess.run(["git", "-C", "/repo", "apply", "--check", os.path.join(d, "patch.diff")], capture_output=True).returncode != 0:
+    if subprocess.run(["git", "-C", REPO, "apply", "--check", os.path.join(d, "patch.diff")], capture_output=True).returncode != 0:
         print(name, "PATCH-DOES-NOT-APPLY", flush=True)
         bad.append(name)
         continue
